@@ -191,6 +191,9 @@ theorem flags_roundtrip (F : FP) (modLimbs : List ℕ) (hm : Lit.ofLimbs 64 modL
     rw [List.getD_eq_getElem?_getD, List.getElem?_append_right (by omega), hlen, Nat.sub_self]
     rfl
   · unfold FP.deserWithFlags
+    have hk2 : ¬ kind > 2 := by
+      rcases hk with ⟨rfl, _⟩ | ⟨rfl, _⟩ | ⟨rfl, _⟩ <;> omega
+    rw [if_neg hk2]
     have hbuf : (F.bits + 7) / 8 = n + 1 := hn8def
     simp only [hbuf, hsz, gt_iff_lt, lt_irrefl, if_false, List.length_append, hlen, List.length_singleton,
       Nat.sub_self, List.replicate_zero, List.append_nil, Nat.add_sub_cancel]
